@@ -8,15 +8,18 @@ from ..mir import generic_path, proj
 
 def slippage_guard(P, pr):
     """Role: callee of the provide handler constructing ContractError::MaxSlippageAssertion."""
+    from .. import names
+    N = names.get(P)
     f = pr.provide_handler
     out = []
     for b, p, fr, t in P.calls(f):
         if roles.is_workspace_fn(P, p):
             g = P.fn(p) or P.fn(generic_path(p))
-            if any(True for _ in common.agg_sites(g, lambda rv: rv["adt"].endswith("ContractError") and rv["variant"] == "MaxSlippageAssertion")):
+            ns = names.norm_sig(g.sig) if g is not None and g.sig else None
+            if ns and ns[1] == names.res("()", N.ContractError) and "&std::option::Option<cosmwasm_std::Decimal>" in ns[0] and "&[%s; 2]" % N.Asset in ns[0] and (b, g) not in out:
                 out.append((b, g))
     if len(out) != 1:
-        raise AnchorMissing("slippage guard (callee of the provide handler constructing MaxSlippageAssertion): %d found" % len(out))
+        raise AnchorMissing("slippage guard (callee of the provide handler: fn(&Option<Decimal>, .., &[Asset; 2]) -> Result<(), ContractError>): %d found" % len(out))
     return out[0]
 
 
@@ -142,7 +145,7 @@ def _run(ctx):
     if len(gts) != 2:
         g1.fail("C15.G1:comparisons", g.path, g.span, "expected two ratio comparisons in the guard, found %d: unrecognised-idiom" % len(gts))
         return
-    errs = [b for b, i, st in common.agg_sites(g, lambda rv: rv["adt"].endswith("ContractError") and rv["variant"] == "MaxSlippageAssertion")]
+    errs = [b for b, i, st in common.agg_sites(g, lambda rv: rv["adt"] == ctx.N.ContractError and rv["variant"] != "Std")]
     for (gg, kind, a, b_) in gts:
         if kind != "gt":
             g1.fail("C15.G1:non-strict", g.path, common.span_of_block_term(g, gg.b), "ratio comparison is `>=`: a provision exactly at the tolerance is rejected")
